@@ -495,6 +495,13 @@ func init() {
 		reg(&explore.Suite{Name: fmt.Sprintf("slowsnap3-d%d", d), Cfg: sim.Config{Voters: 3, SnapAt: 2, HoldFsm: "snapshot,restore"}, Seed: seedLeader3, Monitors: snapDurMonitors,
 			Budget: sim.Budget{Timeouts: 2, Elapses: 2, Beats: 2, Writes: 3, Cuts: 2, Crashes: 1, Restarts: 1, Reorders: -1, Splits: 1, Deviations: d}})
 	}
+	// slow Apply: the apply loop releases the node lock while the application works
+	for d := 0; d <= 4; d++ {
+		reg(&explore.Suite{Name: fmt.Sprintf("slowapply3-d%d", d), Cfg: sim.Config{Voters: 3, HoldFsm: "apply"}, Seed: seedLeader3,
+			Budget: sim.Budget{Timeouts: 2, Elapses: 2, Beats: 2, Writes: 2, Reads: 1, Cuts: 1, Crashes: 1, Restarts: 1, Reorders: -1, Splits: 1, ClientTimeouts: 1, Deviations: d}})
+		reg(&explore.Suite{Name: fmt.Sprintf("slowapplysnap3-d%d", d), Cfg: sim.Config{Voters: 3, SnapAt: 2, HoldFsm: "apply,snapshot,restore"}, Seed: seedLeader3, Monitors: snapDurMonitors,
+			Budget: sim.Budget{Timeouts: 1, Elapses: 1, Beats: 2, Writes: 3, Cuts: 2, Crashes: 1, Restarts: 1, Reorders: -1, Splits: 1, Deviations: d}})
+	}
 	// S-restoring: as S-stalesuffix, then the partition moves (n2 is cut off
 	// instead of n0), stale messages are lost, and n0 has received the complete
 	// snapshot of n1 and is inside Restore; a retransmission of the last chunk
